@@ -38,7 +38,7 @@ class Boom(Exception):
     pass
 
 
-@unit("runpath.run", props=["C06", "C09", "C10", "C13", "C14", "C15", "C02"], functions=[(REL, "run"), (REL, "_coerce_retry")],
+@unit("runpath.run", props=["C06", "C07", "C09", "C10", "C13", "C14", "C15", "C02"], functions=[(REL, "run"), (REL, "_coerce_retry")],
       inlined=["_coerce_retry", "assert_is_instance", "assert_is_callable"],
       assumptions=["contracts of plan_with_value_stores, prune_plan, run_physical, Plan.gather, Plan.copy (own units)", "T7 transform_physical does not touch the caller's objects"],
       min_obligations=12, max_paths=40000)
@@ -168,7 +168,7 @@ def run_unit(ctx):
     if use_reg:
         e = next((x for x in log if x[0] == "pwvs"), None)
         ok = e is not None and e[1] is COPY and e[2] is registry and e[3] == gathered and e[4] is tr and e[7] is FRESH and e[8] is True
-        ctx.check("registry:plan_with_value_stores(copy,registry,output_node=gathered,observer,fresh_time,inplace=True)", bool(ok), props=["C13", "C05", "C15"])
+        ctx.check("registry:plan_with_value_stores(copy,registry,output_node=gathered,observer,fresh_time,inplace=True)", bool(ok), props=["C13", "C05", "C15", "C07"])
         if e is not None:
             ctx.check("C10:stale-check-max_workers==stale_check_max_workers-or-max_workers", bool(e[5] == (scmw if scmw is not None else MW)), props=["C10"])
             ctx.check("C10:stale-check-gets-the-coerced-retry", bool(e[6] is retry_eff), props=["C10"])
@@ -200,7 +200,10 @@ def run_unit(ctx):
         else:
             e = next((x for x in log if x[0] == "run_physical"), None)
             ok = (e is not None and e[1] is exp_plan and (e[2] is exp_out or e[2] == exp_out) and e[3] is tr and e[8] is True)
-            ctx.check("run_physical(executed-plan,REDIRECTED-output-node,observer,inplace=True)", bool(ok), props=["C09", "C14", "C15"])
+            ctx.check("run_physical(executed-plan,REDIRECTED-output-node,observer,inplace=True)", bool(ok), props=["C09", "C14", "C15", "C07"])
+            # C07, second clause: run_physical's contract starts with the acyclicity check of the whole executed plan (coordinator.run_function_on_graph,
+            # kahn.assert_acyclic); the stub accepts exactly that contract's parameters, so a switch that disables the check cannot be passed unnoticed
+            ctx.check("C07:every-real-run-goes-through-run_physical(whose-first-step-validates-acyclicity)-exactly-once", bool(names.count("run_physical") == 1), props=["C07"])
             if e is not None:
                 ctx.check("C10:run_physical-gets-max_workers,max_errors,scheduler-unchanged-and-the-same-retry",
                           bool(e[4] == MW and e[5] == ME and e[6] is retry_eff and e[7] == SCHED), props=["C10"])
